@@ -18,12 +18,13 @@ def run(ctx):
     ctx.assumptions += ["float rounding and integer overflow are not covered by the theorems (exact arithmetic)"]
     ctx.lean(props=["Props.C18"], drivers=["drv_c18"])
     ctx.harness("./cmd/c18")
+    tg = lambda l, o: " ".join(l.split()[:2])
     th = "C18.%s (model = specification); impl != model on this input"
-    ctx.diff(area="rect", driver="drv_c18", n={"quick": 120000, "thorough": 4000000},
+    ctx.diff(area="rect", driver="drv_c18", n={"quick": 400000, "thorough": 4000000}, tagger=tg,
              theorem=th % "contains_iff / intersects_iff / intersect_spec / union_covers / union_smallest / empty_absorbs")
-    ctx.diff(area="matrix", driver="drv_c18", n={"quick": 60000, "thorough": 2000000},
+    ctx.diff(area="matrix", driver="drv_c18", n={"quick": 200000, "thorough": 2000000}, tagger=tg,
              theorem=th % "transform_multiply / transform_translate / transform_scale / transform_rotate / identity_neutral")
-    ctx.diff(area="poly", driver="drv_c18", n={"quick": 60000, "thorough": 2000000},
+    ctx.diff(area="poly", driver="drv_c18", n={"quick": 200000, "thorough": 2000000}, tagger=tg,
              theorem=th % "contour_contains_crossing / evenodd_spec / bounds_encloses / transform_maps_vertices")
     ctx.impl_oracle("rotate", n={"quick": 20000, "thorough": 400000},
                     label="rotation law with rounding sin/cos products, tolerance 16 ulp of the largest term")
